@@ -379,11 +379,16 @@ def run(ctx):
         k = min(300, n - done)
         run_cases(ctx, gen_cases(ctx, k, depth))
         done += k
-    for mode in (True, "newtype", "typealias"):
+    for mode in S.WRAP_MODES:
         if ctx.time_left() > 60:
             with ctx.wrapped(mode):
                 run_cases(ctx, gen_cases(ctx, 120 if ctx.tier == "quick" else 2000, depth))
     run_namesakes(ctx, 40 if ctx.tier == "quick" else 600)
+    # "for the same type, DIALECT and value": format mixin methods given the dialect at call time vs the
+    # format's Encoder / Decoder objects created with it as default_dialect (the stream C13 is built on)
+    from . import c13
+
+    c13.run_uniform(ctx, 1 if ctx.tier == "quick" else 6, c13.UNI_DIALECTS)
     ctx.assumptions += [
         "exceptions are compared by success/failure only between entry points (their classes differ by design: InvalidFieldValue in field position, ValueError at a codec's top level)",
     ]
@@ -392,7 +397,11 @@ def run(ctx):
 def replay(ctx, body):
     ctx.lean_check("Mashu.Props.C15", THEOREMS, extra_targets=["Mashu.Dispatch"])
     c = body["case"]
-    if c and "namesakes" in c:
+    if c and "uniform" in c:
+        from . import c13
+
+        c13.run_uniform(ctx, 4, [c["uniform"]["dialect"]])
+    elif c and "namesakes" in c:
         run_namesakes(ctx, 20)
     elif c:
         run_cases(ctx, [(c["ty"], c["value"], c.get("mode", "valid"))])
